@@ -18,6 +18,13 @@ COMMON_NOTE = ("Trusted: Coq 8.16.1 kernel (vm_compute, no native_compute); prop
                "correspondence harness and its monkeypatches; external libraries modelled as parameters (DESIGN.md section 4). ")
 
 CHECKS = [
+    check("C02",
+          "Coq theorems over the statement-level translation of compute_l2_key regenerated from _gkdi.py on every run, for an arbitrary KDF and key type: from every conforming envelope "
+          "covering an in-range request the result is the MS-GKDI chain key K2(l1,l2) (all 2^20 position pairs, all shapes, any root key/SD/L0/hash; fuel 32 suffices = termination); "
+          "a non-covering or out-of-range request is ValueError for every fuel (neither a key nor a loop). Tie: the control skeleton is translated from the source; compute_kdf_context / "
+          "compute_l1_key / kdf argument shapes by correspondence under the symbolic KDF (output bytes are derivation terms).",
+          COMMON_NOTE + "kdf is universally quantified; the statement translator of compute_l2_key is trusted and validated by the correspondence unit chain.l2.",
+          "Coq proof (loop invariants over regenerated control skeleton) + differential correspondence under symbolic crypto", "7/C02"),
     check("C09",
           "Coq theorems over the interval arithmetic regenerated from _get_protection_gke_from_cache on every run: for all t >= 0 the named (L0,L1,L2) are the floor formulas, "
           "the named interval contains t and is the unique such in-range triple; unbounded in t. Tie to the code: the kernels ARE the code's expressions (translator), plus a "
